@@ -24,6 +24,7 @@ class Arith:
 
     def __init__(self, mode="bv", width=256, fmode="real"):
         self.mode, self.W, self.fmode = mode, width, fmode
+        self.rbound = {}         # id of a Real/Int term -> upper bound on its absolute value (err-mode absolute errors)
         self.int_origin = {}     # id of a Real term that is exactly float(int term) -> that int term
         self.mag = {}            # z3 ast id -> bits b with |value| < 2^b   (bv mode overflow tracking)
         self.assumptions = []    # global side constraints (err-mode deltas, declared ranges)
@@ -99,6 +100,8 @@ class Arith:
                 self.assumptions.append(t >= lo)
             if hi is not None:
                 self.assumptions.append(t <= hi)
+            if lo is not None and hi is not None:
+                self.rbound[t.get_id()] = float(max(abs(lo), abs(hi)))
         return t
 
     def float_var(self, name, lo=None, hi=None):
@@ -116,6 +119,8 @@ class Arith:
             self.assumptions.append(t >= self.fconst(float(lo)))
         if hi is not None:
             self.assumptions.append(t <= self.fconst(float(hi)))
+        if lo is not None and hi is not None:
+            self.rbound[t.get_id()] = float(max(abs(lo), abs(hi)))
         return t
 
     def bits(self, t):
@@ -166,6 +171,8 @@ class Arith:
         if self.fmode == "fp":
             return z3.fpRealToFP(RNE, r, F64)
         self.int_origin[r.get_id()] = v          # float(i): remember the integer it came from
+        if isinstance(v, z3.ExprRef) and v.get_id() in self.rbound:
+            self.rbound[r.get_id()] = self.rbound[v.get_id()]
         return r                       # err mode: ints below 2^53 convert exactly
 
     def bv2int(self, v):
@@ -353,6 +360,9 @@ class Arith:
         if isinstance(a, Undefined) or isinstance(b, Undefined):
             from .interp import UndefinedUse
             raise UndefinedUse("operator on an undefined value")
+        if a is None or b is None:
+            self.raises.append((pc, TypeError))
+            return UNDEF
         if isinstance(a, Guarded):
             return self.dist_pc(a, pc, lambda v, p: self.binop(op, v, b, p))
         if isinstance(b, Guarded):
@@ -510,6 +520,17 @@ class Arith:
         """err mode: r*(1+d) with fresh |d| <= 2^-53"""
         if self.fmode != "err":
             return r
+        b = self.rbound.get(r.get_id())
+        if b is not None:
+            # |fl(r) - r| <= 2^-53 * |r| <= 2^-53 * bound: an absolute error keeps the query linear
+            import fractions
+            e = z3.Real(self.fresh("abserr"))
+            lim = fractions.Fraction(b) / 9007199254740992
+            limt = z3.RealVal(f"{lim.numerator}/{lim.denominator}")
+            self.assumptions.append(z3.And(e >= -limt, e <= limt))
+            out = r + e
+            self.rbound[out.get_id()] = b * (1 + 2.0 ** -52)
+            return out
         d = z3.Real(self.fresh("delta"))
         u = z3.RealVal("1/9007199254740992")
         self.assumptions.append(z3.And(d >= -u, d <= u))
@@ -535,16 +556,18 @@ class Arith:
             if t is ast.Pow and not isinstance(b, z3.ExprRef) and b == 2:
                 return z3.fpMul(RNE, x, x)
             raise Unsupported(f"fp binop {t.__name__}")
+        bx, by = self._rb(x), self._rb(y)
         if t is ast.Add:
-            return self._round(x + y)
+            return self._round(self._setrb(x + y, None if bx is None or by is None else bx + by))
         if t is ast.Sub:
-            return self._round(x - y)
+            return self._round(self._setrb(x - y, None if bx is None or by is None else bx + by))
         if t is ast.Mult:
-            return self._round(x * y)
+            return self._round(self._setrb(x * y, None if bx is None or by is None else bx * by))
         if t is ast.Div:
             if self.pybool(y == 0) is not False:
                 self.raises.append((z3.And(pc, y == 0), ZeroDivisionError))
-            return self._round(x / y)
+            cy = self._const_val(y)
+            return self._round(self._setrb(x / y, None if bx is None or cy in (None, 0) else bx / abs(cy)))
         if t is ast.FloorDiv:
             if self.pybool(y == 0) is not False:
                 self.raises.append((z3.And(pc, y == 0), ZeroDivisionError))
@@ -561,6 +584,22 @@ class Arith:
         if t is ast.Pow and not isinstance(b, z3.ExprRef) and b == 0.5:
             return self.fsqrt(x, pc)
         raise Unsupported(f"float binop {t.__name__}")
+
+    def _const_val(self, t):
+        if isinstance(t, z3.RatNumRef):
+            return t.numerator_as_long() / t.denominator_as_long()
+        return None
+
+    def _rb(self, t):
+        c = self._const_val(t)
+        if c is not None:
+            return abs(c)
+        return self.rbound.get(t.get_id())
+
+    def _setrb(self, t, b):
+        if b is not None:
+            self.rbound[t.get_id()] = b
+        return t
 
     def fsqrt(self, x, pc):
         if self.fmode == "fp":
